@@ -9,3 +9,21 @@ CHECKS = {
         ],
     ),
 }
+
+CHECKS["C01"] = dict(
+    explanation="bounded symbolic execution of LockDB.Lock/UnLock and everything they reach, on a real small database",
+    assumptions=[],
+    harnesses=[
+        dict(pkg="server", name="C01_hist2", bound="2 operations from the empty database, core profile", flags=["-witness", "200"], reach=["end", "grant", "grant-shared"]),
+        dict(pkg="server", name="C01_step", bound="one operation from any state with <=3 holders (symbolic Count/Rcount/priority/depth) and <=2 queued requests", flags=["-witness", "500"], reach=["end", "grant", "grant-shared"]),
+        dict(pkg="server", name="C01_big", bound="one LOCK by a new LockId on a key with any number n < 2^31 of outstanding holds", flags=["-witness", "1"], reach=["end", "grant"]),
+    ],
+)
+
+CHECKS["C20"] = dict(
+    explanation="bounded symbolic execution of the real segmented-deque code against a Go-slice model; the executor forks over every opcode at every step",
+    assumptions=[],
+    harnesses=[
+        dict(pkg="server", name="C20_lockqueue", bound="all programs of 6 operations over 8 opcodes; constructor parameters base 1..2, nodes 1..3, size 1..2", flags=["-witness", "100000"], reach=["end"]),
+    ],
+)
